@@ -28,8 +28,7 @@ DETECTORS = ['collapse_at', 'collapse_as', 'collapse_weight', 'collapse_position
 def _same(ctx, f, ref_src, construct, what, bad, node=None):
     from .. import siblings as SB
     fn = node if node is not None else f.node
-    got = SB.summary(fn)
-    want = SB.summary_of_source(ref_src)
+    got, want = SB.agree(fn, ref_src)
     ctx.stats['terms_compared'] += len(got)
     ctx.check(got == want, construct, what, '%s: %s' % (bad, SB.diff(got, want)), f, f.node)
 
@@ -451,8 +450,7 @@ def bounds_mask_filter(ctx):
     from .c11_refs import REFS
     for a, src in sorted(REFS.items()):
         f = ctx.func(a)
-        got = SB.summary(f.node, strict_casts=True)
-        want = SB.summary_of_source(src, strict_casts=True)
+        got, want = SB.agree(f.node, src, strict_casts=True)
         ctx.stats['terms_compared'] += len(got)
         ctx.check(got == want, f.qualname, 'keeps its confirmed behaviour', '%s differs from its confirmed behaviour (the bounds mask is no longer filtered / normalised the same way): %s'
                   % (f.qualname, SB.diff(got, want)), f, f.node)
